@@ -7,8 +7,8 @@ export GOFLAGS=-mod=mod GOPROXY=off
 unset GOTOOLCHAIN GOSUMDB
 cp /repo/go.sum /verif/harness/go.sum 2>/dev/null || true
 mkdir -p /verif/.run/bin /verif/evidence /verif/replay
-go build -o /verif/.run/bin/vcheck ./cmd/vcheck
-go build -o /verif/.run/bin/jp ./cmd/jp
+go build -tags verif -o /verif/.run/bin/vcheck ./cmd/vcheck
+go build -tags verif -o /verif/.run/bin/jp ./cmd/jp
 go build -tags verif -cover -covermode=atomic -coverpkg=verif/harness/worker,github.com/woodsbury/jmespath/... -o /verif/.run/bin/worker.cover ./worker
 go build -tags verif -race -o /verif/.run/bin/worker.race ./worker
 go test ./ref/ >/dev/null
